@@ -40,9 +40,6 @@ show where they do not.
   argument default twice / at the wrong line), the `<%block>` call site (`block_call_counterexample`),
   declaration lines that follow an inline def (`preamble_after_inline_def_counterexample`);
   hence no unconditional `codegen_line_map_correct`, only `codegen_line_map_partial`;
-* F-C12-relmodfile – the module path of the `module_filename` / `modulename_callable` route is not made
-  absolute: given relative, the template's frames are reported as ordinary Python frames and its warnings
-  against the module file (`relative_module_filename_counterexample`, `module_filename_frames_found_partial`);
 * outside the model, oracle only: F9c (a parse-time warning in python that the generator re-emits through
   `ast` – argument lists, filter lists – is dropped and never raised again), F13 (filter action `error`:
   compile-stage and module-body warnings surface as bare exceptions located in the generated module), F5
@@ -51,7 +48,8 @@ show where they do not.
 
 Closed by repairs of /repo and proved in full here: the `.lineno` search includes the first record
 (`lineno_from_innermost_template_record`), the per-file cache keeps the template source
-(`record_source_is_own_template`), the `<%call>` / inline def / epilogue / cache / inherit / `<%text>` /
+(`record_source_is_own_template`), the module path of the `module_filename` route is made absolute
+(`module_filename_frames_found`), the `<%call>` / inline def / epilogue / cache / inherit / `<%text>` /
 decorator lines are written under their own mark (part of `codegen_marked_partial`).
 -/
 namespace MakoModel.C12
@@ -425,23 +423,35 @@ theorem module_directory_frames_found (abs : Str → Str) (path : Str) (info : T
   rw [module_directory_path_absolute]
   simp [Tb.registryKey, Tb.reportedFilename]
 
-/-- **partial** for a path that is *not* made absolute (the `module_filename` / `modulename_callable`
-    branch of /repo, finding F-C12-relmodfile): the frame is found when the given path is absolute already -/
-theorem module_filename_frames_found_partial (abs : Str → Str) (path : Str) (habs : abs path = path) :
+/-- named obligation: the `module_filename` branch (also `TemplateLookup(modulename_callable=…)`) applies
+    `os.path.abspath` as well (repair 3ef33a0) -/
+theorem module_filename_path_absolute : Generated.TbCfg.moduleFilenamePathAbsolute = true := by decide
+
+/-- **for /repo, `module_filename` / `modulename_callable` templates** – absolute or relative to the working
+    directory: the registered key is the reported file name, so the frame is found and rewritten -/
+theorem module_filename_frames_found (abs : Str → Str) (path : Str) (info : Tb.Info) (reg : Tb.Registry) :
+    Tb.registryKey Generated.TbCfg.moduleFilenamePathAbsolute abs path = Tb.reportedFilename abs path ∧
+    (((Tb.registryKey Generated.TbCfg.moduleFilenamePathAbsolute abs path, info) :: reg).lookup
+        (Tb.reportedFilename abs path) = some info) := by
+  rw [module_filename_path_absolute]
+  simp [Tb.registryKey, Tb.reportedFilename]
+
+/-- regression form – a module path that is NOT made absolute (`registryKey false`; the `module_filename`
+    branch before 3ef33a0, either branch after a revert): the frame is found only when the given path is
+    absolute already … -/
+theorem module_path_not_absolute_regression (abs : Str → Str) (path : Str) (habs : abs path = path) :
     Tb.registryKey false abs path = Tb.reportedFilename abs path := by
   simp [Tb.registryKey, Tb.reportedFilename, habs]
 
 example : (fun p : Str => if p.head? = some '/' then p else "/cwd/".toList ++ p) "/m/x.py".toList = "/m/x.py".toList := by
   decide
 
-/-- F-C12-relmodfile: with a relative `module_filename` the key is not the reported name – the template's
+/-- … and (same pre-fix behaviour) with a relative path the key is not the reported name: the template's
     frames are classified as ordinary Python frames (`frames_classified_plain` applies to them) -/
-theorem relative_module_filename_counterexample :
+theorem relative_module_path_regression :
     let abs : Str → Str := fun p => if p.head? = some '/' then p else "/cwd/".toList ++ p
-    Generated.TbCfg.moduleFilenamePathAbsolute = false ∧
-    Tb.registryKey Generated.TbCfg.moduleFilenamePathAbsolute abs "mods/x.py".toList ≠
-      Tb.reportedFilename abs "mods/x.py".toList ∧
-    Tb.rewrite [(Tb.registryKey Generated.TbCfg.moduleFilenamePathAbsolute abs "mods/x.py".toList,
+    Tb.registryKey false abs "mods/x.py".toList ≠ Tb.reportedFilename abs "mods/x.py".toList ∧
+    Tb.rewrite [(Tb.registryKey false abs "mods/x.py".toList,
                  ⟨[1], ["t".toList], "x.html".toList, "t".toList⟩)]
       ⟨Tb.reportedFilename abs "mods/x.py".toList, 1, [], []⟩
       = some ⟨⟨"/cwd/mods/x.py".toList, 1, [], []⟩, none⟩ := by decide
